@@ -26,7 +26,7 @@ PostQ(e) ==
     \/ e.op = "clone" /\ ObsDeque(seqs'[e.o2], e.post) /\ ObsDeque(seqs'[e.o], e.src)
     \/ e.op \notin {"drop", "clone"} /\ ObsDeque(seqs'[e.o], e.post)
 
-KnownIds == {"C10-KF2", "C10-KF3"}
+KnownIds == {}
 
 (* C10-KF2: AutoGrowCircularQueue tells a completely full ring (len = capacity, reachable     *)
 (* through push_bulk, which fills up to the capacity while push_back keeps one slot free)      *)
